@@ -1,4 +1,5 @@
 """z3 side of symx: proxies, path exploration by re-execution, obligations."""
+import os
 import time
 import signal
 from fractions import Fraction
@@ -405,9 +406,12 @@ class Engine:
             self.solver = z3.SolverFor(logic)
         else:
             self.solver = z3.Solver()
-        self.solver.set('timeout', solver_timeout_ms)
+        # resource limits instead of wall-clock timeouts: deterministic, and no z3 timer threads (z3 5.1's scoped_timer
+        # was seen dead-locked in its destructor, spinning in sched_yield forever, after a few million timed checks)
+        self.rlimit = int(os.environ.get('SYMX_RLIMIT', 2000000))
+        self.fallback_rlimit = int(os.environ.get('SYMX_FALLBACK_RLIMIT', 120000000))
+        self.solver.set('rlimit', self.rlimit)
         self.solver_timeout_ms = solver_timeout_ms
-        self.fallback_timeout_ms = 30000
         self._fresh_model = None
         self.tainted = False
         self.stats = Stats()
@@ -467,7 +471,7 @@ class Engine:
             # problems that a fresh solver decides at once: retry non-incrementally
             self.stats.fallback_queries += 1
             s2 = z3.Solver()
-            s2.set('timeout', self.fallback_timeout_ms)
+            s2.set('rlimit', self.fallback_rlimit)
             s2.add(self.solver.assertions())
             for a in assumptions:
                 s2.add(a)
@@ -753,13 +757,13 @@ class Engine:
                     self.solver.add(extra)
                 for t in reals:
                     self.solver.add(z3.IsInt(t * scale) if scale != 1 else z3.IsInt(t))
-                self.solver.set('timeout', 1500)
+                self.solver.set('rlimit', self.rlimit // 3)
                 r = self._check(kind='model', fallback=False)
                 if r == z3.sat:
                     self.model = self._get_model()
                     return True
             finally:
-                self.solver.set('timeout', self.solver_timeout_ms)
+                self.solver.set('rlimit', self.rlimit)
                 self.solver.pop()
         return False
 
@@ -814,7 +818,7 @@ class Engine:
             # that was interrupted by a timeout has been seen to hand back a stale model): re-decide from scratch
             self.stats.model_rechecks += 1
             s2 = z3.Solver()
-            s2.set('timeout', self.fallback_timeout_ms)
+            s2.set('rlimit', self.fallback_rlimit)
             s2.add(self.solver.assertions())
             bad = [z3.Not(c) for (_, c, _) in symb] if not conc_false else []
             if bad:
@@ -920,6 +924,11 @@ def explore(harness, cfg, max_paths=200000, max_seconds=600.0, witness_every=50,
         if res['violation'] is not None:
             if len(out['violations']) < 8:
                 out['violations'].append(res['violation'])
+            if eng.stats.timeouts >= 2:
+                # the code under test keeps hanging (each such path costs a full watchdog period): the job already
+                # has its counterexamples, stop here and say so
+                out['exhaustive'] = False
+                break
         if res['witness'] is not None:
             out['witnesses'].append(res['witness'])
         if eng.tainted and eng.stack:
